@@ -53,8 +53,25 @@ pub fn main(a: &Args) -> i32 {
     let mut e = Eng::new();
     e.timeout = std::time::Duration::from_secs(a.num("timeout", 20));
     let stdin = std::io::stdin();
+    let copy_dir = dir.with_extension("copy");
+    let copy_db = copy_dir.join("db.axm");
+    let mut e2 = Eng::new();
     for line in stdin.lock().lines() {
         let line = line.unwrap();
+        // `crashcopy`: the files as they are on disk right now, opened by a second engine; `@ <cmd>` talks to it
+        if line.trim() == "crashcopy" {
+            let _ = e2.close();
+            let _ = std::fs::remove_dir_all(&copy_dir);
+            std::fs::create_dir_all(&copy_dir).unwrap();
+            for f in ["db.axm", "axmos.log"] { let _ = std::fs::copy(dir.join(f), copy_dir.join(f)); }
+            let o = e2.open(&copy_db, eng::default_cfg());
+            println!("crashcopy\n   => {}", o.json());
+            continue;
+        }
+        if let Some(rest) = line.trim().strip_prefix("@ ") {
+            if let Some(o) = run_line(&mut e2, &copy_db, rest) { println!("{line}\n   => {}", match &o { eng::Out::Rows(r) => format!("rows {}", r.iter().map(|row| format!("({})", row.iter().map(|v| if v["t"] == "n" { "NULL".to_string() } else { v["v"].to_string() }).collect::<Vec<_>>().join(","))).collect::<Vec<_>>().join(" ")), _ => o.json().to_string() }); }
+            continue;
+        }
         if let Some(o) = run_line(&mut e, &dbfile, &line) {
             let j = o.json();
             let s = match &o {
